@@ -20,7 +20,7 @@ type e2eItem struct {
 	File   bool      `json:"file_store"`
 	Path   []uint8   `json:"path"`
 	Budget c05Budget `json:"budget"`
-	Mode   int       `json:"mode,omitempty"` // 1: every cut of the path happens with the writes failing first
+	Mode   int       `json:"mode,omitempty"`   // 1: every cut of the path happens with the writes failing first
 	Oracle string    `json:"oracle,omitempty"` // "" the C05 rules; "C08": the connection / logged-on-period rules
 }
 
